@@ -8,6 +8,7 @@ import os
 import re
 import shutil
 import subprocess
+import threading
 import sys
 import time
 
@@ -55,10 +56,27 @@ def build_harness():
     log(f"harness built in {time.time() - t:.1f}s")
 
 
+def write_atomic(path, content):
+    """(Re)write a file other processes may be reading: nothing is touched if the content is already there, else
+    the new content appears at once (several threads prepare the same model directory while TLC processes of
+    their siblings are parsing it)."""
+    try:
+        with open(path) as f:
+            if f.read() == content:
+                return
+    except OSError:
+        pass
+    tmp = f"{path}.{os.getpid()}.{threading.get_ident()}.tmp"
+    with open(tmp, "w") as f:
+        f.write(content)
+    os.replace(tmp, path)
+
+
 def copy_specs(dst, names=None):
     for f in os.listdir(SPEC):
         if f.endswith(".tla") and (names is None or f[:-4] in names):
-            shutil.copy(os.path.join(SPEC, f), dst)
+            with open(os.path.join(SPEC, f)) as src:
+                write_atomic(os.path.join(dst, f), src.read())
 
 
 TLC_JAR = "/opt/veriftools/tla/tla2tools.jar"
